@@ -773,6 +773,14 @@ def main():
             errors[item] = str(e)
         except Exception as e:  # a crash of the extractor is a broken tie, not a crash of the check
             errors[item] = 'extractor exception: %r' % (e,)
+        # the item could not be read: fall back to the seed copy (the data of the last tree the translator was validated on),
+        # never to whatever an earlier run happened to leave behind; the item is reported as a broken tie by `check`
+        seed = os.path.join(os.path.dirname(os.path.abspath(__file__)), 'seed')
+        for fname in files:
+            sp = os.path.join(seed, fname)
+            if os.path.exists(sp):
+                if write_if_changed(os.path.join(gen, fname), open(sp).read()):
+                    changed.append(fname)
         return None
 
     r = run('Rank', lambda: gen_rank(repo), ['Rank.lean'])
